@@ -57,6 +57,17 @@ def signatures(tier):
         if n == 5:
             # five parameters: all annotated, each single one, and two alternating patterns
             ann_subsets = [a for a in ann_subsets if sum(a) in (1, 5) or a in ((1, 0, 1, 0, 1), (0, 1, 0, 1, 0))]
+        # an annotation beartype ignores (`object` / `Any`): the parameter takes a position in the signature but no
+        # check -- a wrapper that counts checked parameters instead of positions misindexes everything after it
+        extra = []
+        for ann in ann_subsets:
+            zeros = [i for i, a in enumerate(ann) if a == 0]
+            if zeros and sum(ann):
+                for z in {zeros[0], zeros[-1]}:
+                    extra.append(tuple(2 if i == z else a for i, a in enumerate(ann)))
+        if n >= 2:
+            extra.append(tuple([2] + [1] * (n - 1)))
+        ann_subsets = ann_subsets + [e for e in dict.fromkeys(extra) if e not in ann_subsets]
         for ann in ann_subsets:
             for ret in ((1,) if sum(ann) else (1,)):
                 if not sum(ann) and not ret:
@@ -87,7 +98,11 @@ def make_function(sig, record=None):
     star_done = False
     for i, (k, nm) in enumerate(zip(ks, names)):
         ann = ''
-        if sig['ann'][i]:
+        if sig['ann'][i] == 2:
+            import typing
+            ns['Any'] = typing.Any
+            ann = ': object' if i % 2 == 0 else ': Any'
+        elif sig['ann'][i]:
             cname = ANN_CLASSES[i % len(ANN_CLASSES)][0]
             ns[cname] = ANN_CLASSES[i % len(ANN_CLASSES)][1]
             ann = f': {cname}'
@@ -182,7 +197,7 @@ def reference_bind(sig, U, shape):
     # (value, annotation class, parameter name, condition-it-is-passed)
     checks = []
     for i, (k, nm) in enumerate(zip(ks, names)):
-        if not sig['ann'][i]:
+        if sig['ann'][i] != 1:
             continue
         A = ANN_CLASSES[i % len(ANN_CLASSES)][1]
         if k in 'PFK':
